@@ -6,6 +6,7 @@ From Coq Require Import Strings.Byte.
 Require Import BS.Bytes BS.Common BS.Api BS.Layout BS.Format BS.FormatFacts BS.Spec BS.SpecStep BS.Sections.
 Require Import BS.FS BS.FSFacts BS.Meta BS.MetaFacts BS.Header BS.Reader BS.ReaderFacts BS.Index BS.Data BS.DataFacts BS.Seek BS.SeekFacts BS.Series BS.SeriesFacts BS.ReadAllFacts BS.CountFacts.
 Require Import BS.World BS.Judge BS.JudgeFacts.
+Require Import BS.CacheFacts BS.JudgeCacheFacts.
 Import ListNotations.
 
 (* (I) the reported count of a range is 0 / a range error exactly when nothing is selected; otherwise it is
@@ -54,3 +55,12 @@ Theorem C14_session_accepted_by_judge : forall (name:list byte) (p:nat) (hdr:lis
   accepted World.init_world judge_init (ONew name (N.of_nat p) hdr [] cb :: ops).
 Proof. exact session_accepted. Qed.
 Print Assumptions C14_session_accepted_by_judge.
+
+(* the same for a series WITH cache levels (invariant RepS, props/C08.v): these calls never look at the levels, so what holds
+   for the series without them holds with them *)
+Theorem C14_within_bound_with_caches : forall fs s p hdr ihdr l cs, RepS fs s p hdr ihdr l cs -> forall lo hi k,
+  n_lines_between s lo hi fs = (fs, Ok k) -> select lo hi l <> [] ->
+  (len (select lo hi l) <= k)%N
+  /\ (k <= len (select lo hi l) + N.of_nat (Layout.K p) * sections_touched p (encode p l) (select lo hi l))%N.
+Proof. exact n_lines_within_bound_caches. Qed.
+Print Assumptions C14_within_bound_with_caches.
